@@ -65,7 +65,12 @@ func drawDeviate(t *rapid.T, x *yref.XNode, mark func() string, allowNotSupporte
 		if x.Units == "" {
 			add("add-units", func() *ymodel.Deviate { return &ymodel.Deviate{Kind: "add", Units: "u" + mark()} })
 		} else {
-			add("replace-units", func() *ymodel.Deviate { return &ymodel.Deviate{Kind: "replace", Units: "u" + mark()} })
+			add("replace-units", func() *ymodel.Deviate {
+				if rapid.IntRange(0, 5).Draw(t, "empty-units") == 0 {
+					return &ymodel.Deviate{Kind: "replace", EmptyUnits: true}
+				}
+				return &ymodel.Deviate{Kind: "replace", Units: "u" + mark()}
+			})
 		}
 	}
 	if isLL {
@@ -288,7 +293,7 @@ func conflictsWithEarlier(set *ymodel.Set, tg Target, dv *ymodel.Deviate, self *
 					return true
 				}
 				if (e.Config != nil && dv.Config != nil) || (e.Default != nil && dv.Default != nil) || (e.Mandatory != nil && dv.Mandatory != nil) ||
-					(e.Min != "" && dv.Min != "") || (e.Max != "" && dv.Max != "") || (e.Units != "" && dv.Units != "") || (e.Type != nil && dv.Type != nil) {
+					(e.Min != "" && dv.Min != "") || (e.Max != "" && dv.Max != "") || ((e.Units != "" || e.EmptyUnits) && (dv.Units != "" || dv.EmptyUnits)) || (e.Type != nil && dv.Type != nil) {
 					return true
 				}
 			}
